@@ -67,6 +67,26 @@ DESC = {
     "C18c": "existing report renamed to <name>.bak relative to the current directory instead of being deleted",
     "C19c": "Summary link row remembered per year, not per (asset, year) (an asset whose rows are all hidden links to the previous asset's row)",
     "C20c": "DONATE text of the JP sheet no longer cleared after every row (leaks into a later income row)",
+    "C01d": "heap sort key memoised in a dict of the method object (lots hash by row id; the object is shared by all assets of a run)",
+    "C02d": "lots re-sorted by (timestamp, internal_id as STRING) before the engine is initialised (same-instant lots on rows 9/10 hide one)",
+    "C03d": "tax_report_us row cursor keyed by transaction type (FEE / LOST / MOVE rows overwrite each other on Investment Expenses)",
+    "C04d": "taxable fiat value of income = fiat_in_no_fee instead of fiat_in_with_fee (income row with a supplied with-fee value or a fee)",
+    "C05d": "yearly-summary key built once per taxable event (a disposal spanning lots on both sides of the threshold lands on one line)",
+    "C06d": "break-even fractions (gain exactly 0) skipped when the yearly lines are accumulated",
+    "C07d": "per-holder totals of the Account Balances table via itertools.groupby over rows sorted by exchange",
+    "C08d": "out debit = crypto_balance_change (the optional supplied crypto_out_with_fee) instead of amount + fee",
+    "C09d": "lot-candidate bound and lot sanity check at calendar-day granularity (two cooperating edits: a lot bought later the same day is used)",
+    "C10d": "taxable events collected from the date-FILTERED intra set (fee-bearing transfers before the from-date never reach the matcher)",
+    "C11d": "empty fiat_in_with_fee defaults from crypto_in x spot + fee instead of the supplied fiat_in_no_fee + fee",
+    "C12d": "crypto-fee split re-creates the row under the SHEET's asset (a row naming another configured asset is booked silently)",
+    "C13d": "average price from fiat_in_no_fee + fiat_fee instead of fiat_in_with_fee",
+    "C14d": "'Date acquired' text cached per InTransaction across assets (lots hash by row id)",
+    "C15d": "lot cost = fiat_in_no_fee + fiat_fee instead of fiat_in_with_fee",
+    "C16d": "fraction numbering cuts at the end of the to-date in UTC while the iterator cuts on the local date (KeyError in the full report)",
+    "C17d": "open-positions number format variable hoisted out of the per-asset loop (a cheap asset's format leaks to later assets)",
+    "C18d": "plugin loader prepends the package only to dot-less names (a dotted [accounting_methods] value imports an arbitrary module)",
+    "C19d": "first row of a year decided by the unfiltered predecessor (get_parent) (from-date inside a year: Summary lines lose their link)",
+    "C20d": "fee-less transfers skipped before grouping by year (a year holding only such transfers loses its sheet and summary line)",
     "C20a": "closing-balance row kept in generator state keyed by year and shared across assets (later-starting asset references another asset's year)",
     "C20b": "transactions grouped into year sheets by UTC year (non-UTC timestamp near New Year)",
 }
